@@ -21,8 +21,11 @@ branch, non-B), where the step from the library's whole-fragment type to the spe
 is `typeBridge_of_ranges` (composition of C05's rule-by-rule theorems over the AST; hypothesis:
 thresholds in range, which `Threshold::new` guarantees).  For mixed time locks and
 the defect is the library's own analysis (`…_model`), the semantic statement is
-`def switch_exact_mixed_time_locks_full`; for unsatisfiability the defect is the specification's
-satisfaction table with all assets available (`switch_exact_unsatisfiable`).
+`def switch_exact_mixed_time_locks_full`; for unsatisfiability and for the signature-less
+branch the defect is SEMANTIC: the specification's satisfaction table with all assets available
+resp. with no signature available (`switch_exact_unsatisfiable`, `switch_exact_sigless_branch`;
+the type letters `d` and `s` are proved to mean exactly that in Lemmas/ValidateSem.lean).
+The `_spec_type` variants compare with the specification's type letters `m` / `s`.
 
 T1/T4 after the fixes 8a19a019 (base-type test), 4cd8ebfa (`pk_h` keys), a3413640
 (`new_sortedmulti`), 2d0df974 (`Tr::new`), f6816493 (`Wsh::new`/`Sh::new` call `validate`):
@@ -35,6 +38,9 @@ full statements, and the `_partial` theorems saying that nothing else is missing
 import MsVerif.Lemmas.ValidateCtx
 import MsVerif.Lemmas.ValidateTypes
 import MsVerif.Lemmas.ValidateSat
+import MsVerif.Lemmas.ValidateSem
+import MsVerif.Thm.C09
+import MsVerif.Lemmas.ValidateCC
 
 namespace MsVerif.C12
 open MsVerif MsVerif.Spec ValidationParams
@@ -233,7 +239,7 @@ def TypeBridge (ctx : Ctx) (ms : Ms) : Prop :=
 theorem typeBridge_of_ranges (hr : ruleRange ms = true) : TypeBridge ctx ms :=
   fun ty h => typeBridge (isTap ctx) ms hr ty h
 
-theorem switch_exact_malleability (hr : ruleRange ms = true) :
+theorem switch_exact_malleability_spec_type (hr : ruleRange ms = true) :
     isOk (validate env K ctx { p with allowMalleability := false } ms)
       = (isOk (validate env K ctx p ms) && !hasDefect_malleable (isTap ctx) ms) := by
   simp only [validate_isOk, switch_malleability]
@@ -243,7 +249,7 @@ theorem switch_exact_malleability (hr : ruleRange ms = true) :
     obtain ⟨τ, h1, _, h3, _⟩ := typeBridge_of_ranges ctx ms hr ty hty
     simp [D_malleable, hasDefect_malleable, hty, h1, h3]
 
-theorem switch_exact_sigless_branch (hr : ruleRange ms = true) :
+theorem switch_exact_sigless_branch_spec_type (hr : ruleRange ms = true) :
     isOk (validate env K ctx { p with allowSiglessBranch := false } ms)
       = (isOk (validate env K ctx p ms) && !hasDefect_sigless (isTap ctx) ms) := by
   simp only [validate_isOk, switch_sigless]
@@ -290,13 +296,43 @@ theorem switch_exact_unsatisfiable_model :
 
 /-- `allow_unsatisfiable` at specification level: switching it off rejects exactly the scripts
 for which the specification's table of canonical satisfactions (Spec/SatTable.lean) has NO
-satisfaction even with every signature, preimage, key and lock available.  Hypotheses:
-thresholds in range, and every `thresh` child dissatisfiable (`threshKidsOK`, which the type
-rule of `thresh` — children `Bdu`/`Wdu` — demands). -/
-theorem switch_exact_unsatisfiable (hr : ruleRange ms = true) (hk : threshKidsOK ms = true) :
+satisfaction even with every signature, preimage, key and lock available.  Only hypothesis:
+thresholds in range (an invariant of the Rust `Threshold` type); that every `thresh` child is
+dissatisfiable follows from typing (`threshKidsOK_of_typed`: type letter `d` ⇒ `dsatEx`). -/
+theorem switch_exact_unsatisfiable (hr : ruleRange ms = true) :
     isOk (validate env K ctx { p with allowUnsatisfiable := false } ms)
       = (isOk (validate env K ctx p ms) && !hasDefect_unsatisfiable ms) := by
-  rw [switch_exact_unsatisfiable_model, satData_isSome_eq_satEx env ctx ms hr hk]
+  cases hty : typeOf ms with
+  | none => simp [validate_isOk, validOK, hty]
+  | some ty =>
+    rw [switch_exact_unsatisfiable_model,
+      satData_isSome_eq_satEx env ctx ms hr (threshKidsOK_of_typed ms ty hty)]
+
+/-- `allow_sigless_branch`, SEMANTICALLY: switching it off rejects exactly the scripts that
+have a canonical satisfaction using no signature at all (the specification's satisfaction
+table finds one when no signature is available and everything else is) — independent of the
+type system: the type letter `s` is proved to mean exactly that (`signed_eq_noSigSat`). -/
+theorem switch_exact_sigless_branch (hr : ruleRange ms = true) :
+    isOk (validate env K ctx { p with allowSiglessBranch := false } ms)
+      = (isOk (validate env K ctx p ms) && !hasDefect_siglessSem ms) := by
+  simp only [validate_isOk, switch_sigless]
+  cases hty : typeOf ms with
+  | none => simp [validOK, hty]
+  | some ty =>
+    simp only [D_sigless, hty, hasDefect_siglessSem, signed_eq_noSigSat ms hr ty hty, Bool.not_not]
+
+/-- duplicate keys: the defect is the standard notion — the list of key occurrences has a
+repetition -/
+theorem duplicate_keys_defect_iff : hasDefect_duplicateKeys ms = false ↔ (allKeys ms).Nodup := by
+  simp only [hasDefect_duplicateKeys, Bool.not_eq_false']
+  generalize allKeys ms = l
+  induction l with
+  | nil => simp [nodupB]
+  | cons k ks ih =>
+    simp only [nodupB, Bool.and_eq_true, Bool.not_eq_true', List.nodup_cons, ih]
+    constructor
+    · rintro ⟨h1, h2⟩; exact ⟨by simpa using h1, h2⟩
+    · rintro ⟨h1, h2⟩; exact ⟨by simpa using h1, h2⟩
 
 /-- the semantic statement for mixed time locks: exact for scripts without a `0` fragment
 (a `0` under a conjunction makes the library's analysis count a combination no satisfaction
@@ -366,12 +402,14 @@ example : isOk (validate demoEnv demoK .segwitv0 .MAX dupScript) = true ∧
       dupScript) = false := by decide
 /-- `and_v(v:pk(0),0)`: no satisfaction -/
 example : hasDefect_unsatisfiable (.andV (.verify (.check (.pkK 0))) .fls) = true ∧
-    threshKidsOK (.andV (.verify (.check (.pkK 0))) .fls) = true ∧
+    hasDefect_siglessSem (.andV (.verify (.check (.pkK 0))) (.older 10)) = false ∧
+    hasDefect_siglessSem (.orI (.check (.pkK 0)) (.older 10)) = true ∧
     ruleRange (.andV (.verify (.check (.pkK 0))) .fls) = true ∧
     hasDefect_unsatisfiable dupScript = false ∧
     threshKidsOK (.thresh 1 (.cons (.check (.pkK 0)) (.cons (.swap (.check (.pkK 1))) .nil))) = true := by
   simp [hasDefect_unsatisfiable, threshKidsOK, kidsPred, everyNode, everyNodeL, ruleRange, rangeOk,
-    SatTable.satEx, SatTable.dsatEx, SatTable.allDsatEx, allAvail, dupScript]
+    SatTable.satEx, SatTable.dsatEx, SatTable.allDsatEx, allAvail, dupScript, hasDefect_siglessSem,
+    noSigAvail]
 example : isOk (validate demoEnv demoK .segwitv0 { ValidationParams.MAX with maxScriptSize := 70 }
       dupScript) = true ∧
     isOk (validate demoEnv demoK .segwitv0 { ValidationParams.MAX with maxScriptSize := 69 }
@@ -384,16 +422,17 @@ variable (env : KeyEnv) (K : KeyInfo) (ctx : Ctx) (ms : Ms) (len : Ms → Nat)
 
 /-- `from_ast` (run on every node): every fragment rule of the context — key kinds (also of
 `pk_h` keys since fix 4cd8ebfa), multisig flavour, threshold and lock ranges, depth, script size.
-`hlen`: the library's size figure `pk_cost` is the real script length (C04/C09). -/
+`hlen`: the script length is at most the library's size figure `pk_cost` (discharged for the
+real encoded length by C09, see `accepted_obeys_ctx_encoded`). -/
 theorem from_ast_obeys_ctx (h : accepts env K ctx .fromAst ms = true)
-    (hlen : (extOf env ctx ms).pkCost = len ms) :
+    (hlen : len ms ≤ (extOf env ctx ms).pkCost) :
     ctxFragOK (factsFrom K len) ctx ms = true := by
   simp only [accepts, Bool.and_true] at h
   obtain ⟨h1, h2, h3⟩ := constructed_rules env K ctx len ms h
   simp only [ctxFragOK, Bool.and_eq_true]
   refine ⟨⟨⟨⟨h3, h2⟩, h1⟩, ?_⟩, constructed_depth env K ctx ms h⟩
-  simp only [ruleSize, factsFrom, decide_eq_true_eq, ← hlen]
-  exact constructed_size env K ctx ms h
+  simp only [ruleSize, factsFrom]
+  exact decide_eq_true (Nat.le_trans hlen (constructed_size env K ctx ms h))
 
 example : accepts demoEnv demoK .segwitv0 .fromAst (.pkH 200) = false ∧
     accepts demoEnv demoK .segwitv0 .fromAst (.pkH 0) = true := by decide
@@ -401,10 +440,12 @@ example : accepts demoEnv demoK .segwitv0 .fromAst (.pkH 200) = false ∧
 /-- the miniscript parsers / decoders (`from_str`, `from_str_insane`,
 `from_str_with_validation_params(_, &Ctx::CONSENSUS)`, `decode`, `decode_consensus`) and the
 `tr(..)` descriptor parsers: everything accepted obeys ALL rules of the context.
-Hypothesis `hlen`: the library's size figure `pk_cost` is the real script length (C04/C09;
-it was one byte short per uncompressed key before fix F17, which the size judge found). -/
+Hypothesis `hlen`: `len` is at most the library's size figure `pk_cost` — an inequality, because
+`pk_cost` overshoots for `multi_a` (C09 `costSlack`); it was one byte SHORT per uncompressed key
+before fix F17, which the size judge found.  `accepted_obeys_ctx_encoded` discharges it for the
+real encoded length. -/
 theorem accepted_obeys_ctx_consensus (h : accepts env K ctx .msConsensus ms = true)
-    (hlen : (extOf env ctx ms).pkCost = len ms) :
+    (hlen : len ms ≤ (extOf env ctx ms).pkCost) :
     ctxOK (factsFrom K len) ctx ms = true := by
   simp only [accepts, Bool.and_eq_true, validate_isOk] at h
   obtain ⟨hc, hv⟩ := h
@@ -414,15 +455,15 @@ theorem accepted_obeys_ctx_consensus (h : accepts env K ctx .msConsensus ms = tr
   simp only [ctxOK, ctxFragOK, Bool.and_eq_true]
   refine ⟨⟨?_, hcond⟩, ⟨⟨⟨⟨hk, h2⟩, h1⟩, ?_⟩, constructed_depth env K ctx ms hc⟩⟩
   · simp only [ruleTopB, ht1, ht2, hB]; rfl
-  · simp only [ruleSize, factsFrom, decide_eq_true_eq, ← hlen]
-    exact constructed_size env K ctx ms hc
+  · simp only [ruleSize, factsFrom]
+    exact decide_eq_true (Nat.le_trans hlen (constructed_size env K ctx ms hc))
 
 /-- the same for the two contexts that admit uncompressed keys, from the figure `validate`
 actually uses there (`script_size()`, which counts 66 bytes for an uncompressed key and is
-compared with `max_script_size` = 520 / 10 000): hypothesis `script_size()` = real length -/
+compared with `max_script_size` = 520 / 10 000): hypothesis real length ≤ `script_size()` -/
 theorem accepted_obeys_ctx_consensus_by_script_size (hctx : ctx = .legacy ∨ ctx = .bare)
     (h : accepts env K ctx .msConsensus ms = true)
-    (hss : scriptSize env ctx ms = len ms) :
+    (hss : len ms ≤ scriptSize env ctx ms) :
     ctxOK (factsFrom K len) ctx ms = true := by
   simp only [accepts, Bool.and_eq_true, validate_isOk] at h
   obtain ⟨hc, hv⟩ := h
@@ -435,20 +476,21 @@ theorem accepted_obeys_ctx_consensus_by_script_size (hctx : ctx = .legacy ∨ ct
   · simp only [validOK, hty, nonTopOK, resourceOK, Bool.and_eq_true, Bool.or_eq_true,
       decide_eq_true_eq] at hv
     have hsz := hv.1.2.1
-    simp only [ruleSize, factsFrom, decide_eq_true_eq, ← hss]
+    simp only [ruleSize, factsFrom]
+    apply decide_eq_true
     rcases hctx with rfl | rfl <;>
       simp only [Ctx.CONSENSUS, ValidationParams.CONSENSUS, USIZE_MAX, MAX_SCRIPT_ELEMENT_SIZE,
         MAX_SCRIPT_SIZE, maxScriptLen] at hsz ⊢ <;> omega
 
 theorem accepted_obeys_ctx_sane (h : accepts env K ctx .msSane ms = true)
-    (hlen : (extOf env ctx ms).pkCost = len ms) :
+    (hlen : len ms ≤ (extOf env ctx ms).pkCost) :
     ctxOK (factsFrom K len) ctx ms = true := by
   apply accepted_obeys_ctx_consensus env K ctx ms len _ hlen
   simp only [accepts, Bool.and_eq_true, validate_isOk] at h ⊢
   exact ⟨h.1, validOK_mono (sane_le_consensus ctx) env K ctx ms h.2⟩
 
 theorem accepted_obeys_ctx_insane (h : accepts env K ctx .msInsane ms = true)
-    (hlen : (extOf env ctx ms).pkCost = len ms) :
+    (hlen : len ms ≤ (extOf env ctx ms).pkCost) :
     ctxOK (factsFrom K len) ctx ms = true := by
   apply accepted_obeys_ctx_consensus env K ctx ms len _ hlen
   simp only [accepts, Bool.and_eq_true, validate_isOk] at h ⊢
@@ -456,7 +498,7 @@ theorem accepted_obeys_ctx_insane (h : accepts env K ctx .msInsane ms = true)
 
 /-- `Tr::from_str` and `Descriptor::from_str("tr(..)")` validate every leaf with `Tap::CONSENSUS` -/
 theorem accepted_obeys_ctx_tr (e : Entry) (he : e = .trFromStr ∨ e = .descFromStr)
-    (h : accepts env K .tap e ms = true) (hlen : (extOf env .tap ms).pkCost = len ms) :
+    (h : accepts env K .tap e ms = true) (hlen : len ms ≤ (extOf env .tap ms).pkCost) :
     ctxOK (factsFrom K len) .tap ms = true := by
   apply accepted_obeys_ctx_consensus env K .tap ms len _ hlen
   rcases he with rfl | rfl <;> simp only [accepts, Bool.and_eq_true] at h ⊢
@@ -490,7 +532,7 @@ R1 (type-B top level) and ALL fragment rules hold in every context; R4 (`d:`/`or
 every context except legacy. -/
 theorem wrapper_obeys_ctx_partial (e : Entry)
     (he : e = .wrapper ∨ (e = .descFromStr ∧ ctx ≠ .tap))
-    (h : accepts env K ctx e ms = true) (hlen : (extOf env ctx ms).pkCost = len ms) :
+    (h : accepts env K ctx e ms = true) (hlen : len ms ≤ (extOf env ctx ms).pkCost) :
     ruleTopB ctx ms = true ∧ ctxFragOK (factsFrom K len) ctx ms = true ∧
       (ctx ≠ .legacy → ruleCond ctx ms = true) := by
   obtain ⟨hc, htop⟩ := wrapper_imp_top env K ctx ms e he h
@@ -517,7 +559,7 @@ theorem wrapper_obeys_ctx_partial (e : Entry)
 the `sh` wrapper / `sh(..)` parser do not enforce R4 (`d:`/`or_i` in legacy, F13) -/
 theorem accepted_obeys_ctx (e : Entry) (he : e ≠ .fromAst)
     (hsh : ¬ (ctx = .legacy ∧ (e = .wrapper ∨ e = .descFromStr)))
-    (h : accepts env K ctx e ms = true) (hlen : (extOf env ctx ms).pkCost = len ms) :
+    (h : accepts env K ctx e ms = true) (hlen : len ms ≤ (extOf env ctx ms).pkCost) :
     ctxOK (factsFrom K len) ctx ms = true := by
   have hw : ∀ e', (e' = .wrapper ∨ (e' = .descFromStr ∧ ctx ≠ .tap)) → ctx ≠ .legacy →
       accepts env K ctx e' ms = true → ctxOK (factsFrom K len) ctx ms = true := by
@@ -541,11 +583,37 @@ theorem accepted_obeys_ctx (e : Entry) (he : e ≠ .fromAst)
       exact accepted_obeys_ctx_tr env K ms len .descFromStr (Or.inr rfl) h hlen
     · exact hw .descFromStr (Or.inr ⟨rfl, ht⟩) (fun hc => hsh ⟨hc, Or.inr rfl⟩) h
 
+/-- the byte length of the script the fragment really encodes to (Model/Encode, C04) -/
+def encodedLen (env : KeyEnv) (ctx : Ctx) (ms : Ms) : Nat :=
+  (Script.serialize (encode env ctx ms)).length
+
+/-- T1 about the REAL encoded length: no size hypothesis is left; what remains are C09's
+decidable side conditions on the atom table (`costOk`, `sizeOk`: keys, key hashes and hash
+values have the byte lengths the context prescribes, numbers fit 32 bits), under which C09
+proves `encoded length ≤ pk_cost` (`C09.pk_cost_ge_encoded_length`) -/
+theorem accepted_obeys_ctx_encoded (e : Entry) (he : e ≠ .fromAst)
+    (hsh : ¬ (ctx = .legacy ∧ (e = .wrapper ∨ e = .descFromStr)))
+    (h : accepts env K ctx e ms = true)
+    (hc : C09.costOk env ctx ms = true) (hs : C09.sizeOk env ctx ms = true) :
+    ctxOK (factsFrom K (encodedLen env ctx)) ctx ms = true :=
+  accepted_obeys_ctx env K ctx ms (encodedLen env ctx) e he hsh h
+    (C09.pk_cost_ge_encoded_length env ctx ms hc hs)
+
+theorem from_ast_obeys_ctx_encoded (h : accepts env K ctx .fromAst ms = true)
+    (hc : C09.costOk env ctx ms = true) (hs : C09.sizeOk env ctx ms = true) :
+    ctxFragOK (factsFrom K (encodedLen env ctx)) ctx ms = true :=
+  from_ast_obeys_ctx env K ctx ms (encodedLen env ctx) h
+    (C09.pk_cost_ge_encoded_length env ctx ms hc hs)
+
+example : accepts C09.ke0 ⟨keyKindOf C09.ke0, fun _ => 1⟩ .segwitv0 .msSane (.check (.pkK 0)) = true ∧
+    C09.costOk C09.ke0 .segwitv0 (.check (.pkK 0)) = true ∧
+    C09.sizeOk C09.ke0 .segwitv0 (.check (.pkK 0)) = true := by decide
+
 /-- the full statement (no exception for `sh`) -/
 def accepted_obeys_ctx_full : Prop :=
   ∀ (env : KeyEnv) (K : KeyInfo) (ctx : Ctx) (e : Entry) (ms : Ms) (len : Ms → Nat),
     e ≠ .fromAst → accepts env K ctx e ms = true →
-    (extOf env ctx ms).pkCost = len ms → ctxOK (factsFrom K len) ctx ms = true
+    len ms ≤ (extOf env ctx ms).pkCost → ctxOK (factsFrom K len) ctx ms = true
 
 end T1
 
@@ -571,7 +639,7 @@ theorem sh_accepts_or_i :
 theorem accepted_obeys_ctx_false : ¬ accepted_obeys_ctx_full := by
   intro h
   have := h demoEnv demoK .legacy .wrapper (.orI (.check (.pkK 0)) (.check (.pkK 1)))
-    (fun ms => (extOf demoEnv .legacy ms).pkCost) (by decide) (by decide) rfl
+    (fun ms => (extOf demoEnv .legacy ms).pkCost) (by decide) (by decide) (Nat.le_refl _)
   revert this; decide
 
 example : accepts demoEnv demoK .segwitv0 .wrapper (.check (.pkK 0)) = true ∧
@@ -605,7 +673,7 @@ rules -/
 theorem tr_tree_accepts_obeys (env : KeyEnv) (K : KeyInfo) (len : Ms → Nat) (e : Entry)
     (he : e = .trNew ∨ e = .trFromStr ∨ e = .descFromStr) (t : TapT)
     (h : trTreeAccepts env K e t = true)
-    (hlen : ∀ m ∈ t.leaves, (extOf env .tap m).pkCost = len m) :
+    (hlen : ∀ m ∈ t.leaves, len m ≤ (extOf env .tap m).pkCost) :
     tapTreeOK (factsFrom K len) (t.depths 0) t.leaves = true := by
   simp only [trTreeAccepts, Bool.and_eq_true, decide_eq_true_eq, List.all_eq_true] at h
   simp only [tapTreeOK, Bool.and_eq_true, List.all_eq_true, decide_eq_true_eq]
@@ -633,7 +701,7 @@ itself pushes `pk_k` / `multi` / lock leaves unchecked: `validate` makes up for 
 `hlen`: as in `accepted_obeys_ctx_consensus`. -/
 theorem decode_accepts_obeys_ctx (env : KeyEnv) (K : KeyInfo) (ctx : Ctx) (p : ValidationParams)
     (ms : Ms) (len : Ms → Nat) (hp : p.entails ctx.CONSENSUS = true)
-    (h : decodeAccepts env K ctx p ms = true) (hlen : (extOf env ctx ms).pkCost = len ms) :
+    (h : decodeAccepts env K ctx p ms = true) (hlen : len ms ≤ (extOf env ctx ms).pkCost) :
     ctxOK (factsFrom K len) ctx ms = true := by
   simp only [decodeAccepts, decConstructed, Bool.and_eq_true, List.all_eq_true] at h
   obtain ⟨⟨⟨hnodes, hglob⟩, _⟩, hv⟩ := h
@@ -648,11 +716,21 @@ theorem decode_accepts_obeys_ctx (env : KeyEnv) (K : KeyInfo) (ctx : Ctx) (p : V
   refine ⟨⟨?_, hcond⟩, ⟨⟨⟨⟨hk, validOK_consensus_multi env K ctx ms hv'⟩, hrange⟩, ?_⟩, ?_⟩⟩
   · simp only [ruleTopB, ht1, ht2, hB]; rfl
   · simp only [checkGlobalValidity, Bool.and_eq_true] at hglob
-    simp only [ruleSize, factsFrom, decide_eq_true_eq, ← hlen]
-    exact sizeChecked_le _ _ hglob.2
+    simp only [ruleSize, factsFrom]
+    exact decide_eq_true (Nat.le_trans hlen (sizeChecked_le _ _ hglob.2))
   · have := validOK_depth env K ctx ctx.CONSENSUS ms hv'
     have h402 : (ctx.CONSENSUS).maxRecursiveDepth = 402 := by cases ctx <;> rfl
     simp only [ruleDepth, decide_eq_true_eq]; omega
+
+/-! ## one model of `validate`: C08's mirror is this one -/
+
+/-- `CC.validateSane` (Model/CompileCheck.lean, used by C08's compiler checker) equals
+`validate … ctx.SANE` of Model/Validate.lean on the compiler's key table, for every script whose
+satisfaction figures fit a `usize` (`FitsUsize`; true of every Rust value by construction) -/
+theorem c08_validateSane_is_validate (env : KeyEnv) (ctx : Ctx) (m : Ms)
+    (hfit : FitsUsize env ctx m) :
+    CC.validateSane env ctx m = isOk (validate env (ccKeys env) ctx ctx.SANE m) :=
+  validateSane_eq_validate env ctx m hfit
 
 /-! ## T4 — what the descriptor parser accepts, the miniscript parser with the context's
 consensus parameters accepts -/
